@@ -253,6 +253,76 @@ def oversize_phase(ctx, exe, key, findings):
     ctx.cov["oversize"] = res
 
 
+def valid_phase(ctx, findings):
+    """Well-formed traffic is input too: every cipher x MAC x zip combination and every kind of restriction (UID any/own/
+    other, GID any/primary/supplementary through the group+user databases/non-member), decoded by authorized and
+    unauthorized clients, repeated (replays), on a daemon with generated NSS databases; every request is owed a reply, a
+    canary must be served afterwards, and the daemon must stop cleanly with no sanitizer report."""
+    import credcorr
+    exe, err = rig.build_daemon(ctx, san="address", extra_src=[os.path.join(vlib.HARNESS, "nss_shim.c")], wraps=credcorr.NSS_WRAPS)
+    if exe is None:
+        findings.append({"kind": "munged+nss shim does not build", "class": "valid", "stderr": err[-400:]})
+        return 0
+    db = {"groups": [(700, ["ann", "bob"]), (701, ["cat"]), (700, ["dan"]), (702, []), (0, ["eve"])],
+          "users": [("ann", 3001), ("bob", 3002), ("cat", 3003), ("dan", 3004), ("eve", 3005), ("root", 0)]}
+    key = bytes(ctx.rng.getrandbits(8) for _ in range(48))
+    d = rig.Daemon(ctx, exe, tag="valid", key=key, nthreads=2, nss_db=db)
+    if not d.start():
+        findings.append({"kind": "daemon does not start", "class": "valid"})
+        return 0
+    time.sleep(0.4)
+    ANY = 0xFFFFFFFF
+    combos = [(4, 5, 0), (0, 2, 2), (2, 3, 3), (5, 6, 0)] if not ctx.thorough else \
+        [(c, m, z) for c in (0, 2, 3, 4, 5) for m in (2, 3, 4, 5, 6) for z in (0, 2, 3) if not (c == 5 and m in (2, 3, 4))]
+    clients = [(3001, 50), (3002, 700), (3003, 52), (0, 0), (3999, 53)]
+    n = 0
+    hist = []
+    try:
+        for (c, m, z) in combos:
+            for (cu, cg) in clients:
+                for au in (ANY, cu, 3002 if cu != 3002 else 3001):
+                    for ag in (ANY, cg, 700, 701):
+                        r, st = rig.encode(d.sock, uid=4242, gid=4243, cipher=c, mac=m, zip_=z, auth_uid=au, auth_gid=ag,
+                                           data=b"valid-traffic " * (1 + n % 7), ttl=60)
+                        n += 1
+                        ctx.count(("valid", c, m, z, cu, cg, au, ag))
+                        hist.append(("enc", c, m, z, au, ag, st))
+                        if r is None:
+                            findings.append({"kind": "well-formed encode request got no reply (%s)" % st, "class": "valid",
+                                             "history": hist[-12:]})
+                            raise StopIteration
+                        if r["error_num"] != 0:
+                            continue
+                        for rep in range(2):
+                            q, st = rig.decode(d.sock, r["data"], uid=cu, gid=cg)
+                            hist.append(("dec", cu, cg, au, ag, st, q and q["error_num"]))
+                            if q is None:
+                                findings.append({"kind": "well-formed decode request got no reply (%s)" % st, "class": "valid",
+                                                 "history": hist[-12:]})
+                                raise StopIteration
+        cn = rig.canary(d.sock)
+        if cn:
+            findings.append({"kind": "after well-formed restricted traffic: " + cn, "class": "valid", "history": hist[-12:]})
+    except StopIteration:
+        pass
+    except rig.DaemonUnresponsive as e:
+        findings.append({"kind": "munged stops serving during well-formed traffic: %s" % e, "class": "valid",
+                         "history": hist[-12:], "wire_history": e.history[-8:]})
+    alive = d.alive()
+    rc, rep = d.stop()
+    kinds, frames = hostile.summarize_report(rep)
+    if not alive:
+        findings.append({"kind": "daemon died during well-formed traffic", "class": "valid", "sanitizer": kinds, "frames": frames,
+                         "history": hist[-12:]})
+    elif kinds:
+        findings.append({"kind": "sanitizer report after well-formed traffic", "class": "valid", "sanitizer": kinds,
+                         "frames": frames, "history": hist[-12:]})
+    elif rc not in (0, None):
+        findings.append({"kind": "daemon did not stop cleanly after well-formed traffic (exit %s)" % rc, "class": "valid",
+                         "history": hist[-12:]})
+    return n
+
+
 def live_phase(ctx):
     exe, err = rig.build_daemon(ctx, san="address")
     if exe is None:
@@ -280,6 +350,7 @@ def live_phase(ctx):
         ("hdr", hostile.header_stream(ctx, creds[0][1])),
         ("encreq", hostile.encreq_stream(ctx)),
         ("decreq", hostile.decreq_stream(ctx, creds[0][1])),
+        ("armor", hostile.armor_stream(ctx, creds[0][1])),
         ("outerprefix", hostile.outer_prefix_stream(ctx, creds[:3] if not ctx.thorough else creds)),
         ("edit", hostile.cred_edit_stream(ctx, creds if ctx.thorough else creds[:3])),
         ("vmac", hostile.validmac_stream(ctx, key)),
@@ -294,6 +365,7 @@ def live_phase(ctx):
             ctx.sample({"class": cls, "raw_hex": raw[:80].hex(), "len": len(raw)}, limit=14)
     stall_phase(ctx, exe, key, findings)
     oversize_phase(ctx, exe, key, findings)
+    dist["valid"] = valid_phase(ctx, findings)
     ctx.cov["input_distribution"] = dist
     # de-duplicate by (kind, top frame)
     seen = set()
@@ -309,7 +381,7 @@ def live_phase(ctx):
         what = "%s on input class %s" % (f["kind"], f.get("class"))
         if f.get("sanitizer"):
             what += " [%s at %s]" % (f["sanitizer"][0], " <- ".join("%s %s:%d" % fr for fr in f.get("frames", [])[:3]))
-        ctx.violation(what, f, found_input=("raw_hex" in f or f.get("class") in ("stall", "oversize")))
+        ctx.violation(what, f, found_input=("raw_hex" in f or f.get("class") in ("stall", "oversize", "valid")))
 
 
 def _run_own(ctx):
@@ -317,8 +389,10 @@ def _run_own(ctx):
     ctx.cov["rule"] = ("hostile streams over the wire protocol against the ASan+LSan daemon rebuilt from /repo: type codes x "
                        "length fields x bodies, every truncation point of each message layout, malformed ENC_REQ/DEC_REQ "
                        "fields, byte-level edits and all OUTER prefixes of real credentials, validly MAC'd credentials with "
-                       "malformed interiors (every inner truncation, addr_len, data_len, zip header/body faults), stalled "
-                       "clients; canary encode/decode after every batch; sanitizer report read at shutdown. "
+                       "malformed interiors (every inner truncation, addr_len, data_len, zip header/body faults), the "
+                       "armor layer (base64 bodies of every length mod 4 with stripped/misplaced padding, whitespace, several "
+                       "suffixes), stalled clients, well-formed traffic over cipher x MAC x zip x restriction kind x client "
+                       "identity on generated group/user databases (each request owed a reply); canary encode/decode after every batch; sanitizer report read at shutdown. "
                        "non-trivial = distinct (class, bytes)")
     ok = vlib.prove(ctx, ["Properties_C08.v"], facts=["cred", "base64", "msg", "msgtables"])
     ctx.log("proofs:", "ok" if ok else "BROKEN: " + getattr(ctx, "broken_obligation", "?"))
@@ -335,3 +409,6 @@ def run(ctx):
     _run_own(ctx)
     from props import fd_common
     fd_common.fd_phase(ctx)
+
+
+MANIFEST["level"] = (MANIFEST["level"][0], MANIFEST["level"][1] + ' The streams also cover the armor layer (unpadded/mispadded base64 of every length mod 4, several suffixes) and well-formed traffic over every option and restriction kind on generated group/user databases (each request owed a reply).', MANIFEST["level"][2])
